@@ -78,3 +78,13 @@ CHECK = {
     ),
   },
 }
+
+# iteration after ANY history of the base sequences (h_seq.c prop=C11: forward count == len, i-th item is get(i),
+# backward == exact reverse, in every state of the Array / List / Tuple state graphs incl. aliasing operations),
+# and the same for Table / Tree inside their own state graphs (h_table.c / h_tree.c check both directions in every state of C02/C03)
+import os, sys
+sys.path.insert(0, os.path.dirname(os.path.abspath(__file__)))
+import _agg
+_extra = _agg.collect('C11')
+CHECK['instances'] = {t: list(CHECK['instances'][t]) + _extra[t] for t in ('quick', 'thorough')}
+CHECK['level'] = CHECK.get('level', 'exploration')
